@@ -818,6 +818,32 @@ theorem quiet_inert (now : Int) (s : Mgr) (m : Msg) (hi : Inv s) (hn : (step s m
     specReport now (specStep (abs s) m) = specReport now (abs s) :=
   quiet_inert_G true now s m hi hn (by intro h; cases h)
 
+/-- the handlers with the observation point (`stepW`, what the driver runs and the harness
+    compares with the real listener) project to `stepG`: the listener is woken iff the test
+    passes, and what it sees when woken is the state after the message. -/
+theorem stepW_eq (fixed : Bool) (s : Mgr) (m : Msg) :
+    stepW fixed s m =
+      ((stepG fixed s m).1, if (stepG fixed s m).2 then some (stepG fixed s m).1 else none) := by
+  cases m with
+  | removeClient b n =>
+    simp only [stepW, stepG, wakeAt]
+    cases s.clients b with
+    | none => simp
+    | some c => simp only []; split <;> simp
+  | removePlayer p =>
+    simp only [stepW, stepG, removePlayerW, removePlayer, wakeAt]
+    split
+    · split
+      · split <;> rfl
+      · split <;> rfl
+    · rfl
+  | setState p ps cmds q => simp only [stepW, stepG, wakeAt]; rfl
+  | contentItemUpdate p us => simp only [stepW, stepG, wakeAt]; rfl
+  | setNowPlayingClient b n => simp only [stepW, stepG, wakeAt]; rfl
+  | setNowPlayingPlayer p => simp only [stepW, stepG, wakeAt]; rfl
+  | updateClient b n => simp only [stepW, stepG, wakeAt]; rfl
+  | setDefaultSupportedCommands p cmds => simp only [stepW, stepG, wakeAt]; rfl
+
 theorem serving_abs (s : Mgr) (hi : Inv s) : serving (abs s) = s.serving := by
   unfold serving Mgr.serving
   cases ha : s.active with
